@@ -677,3 +677,102 @@ pub fn drop_race(seed: u64, idx: u64) -> Case {
         sig_tail: String::new(),
     }
 }
+
+// ------------------------------------------------------------------ a wrapped value without bytes
+
+/// Where and how often the zero-sized value below was destroyed (the type cannot carry a reference to a log).
+static ZST_DROPS: Mutex<Vec<ThreadId>> = Mutex::new(Vec::new());
+static ZST_LOCK: Mutex<()> = Mutex::new(());
+
+/// A handle for something that lives elsewhere (a library with global state, say): no bytes, but a destructor.
+struct Handle;
+impl Drop for Handle {
+    fn drop(&mut self) {
+        ZST_DROPS.lock().unwrap_or_else(|e| e.into_inner()).push(std::thread::current().id());
+    }
+}
+
+/// The wrapper's promises do not depend on what the value looks like: a zero-sized value with a destructor is
+/// created, used and destroyed off the async threads as well. (One case at a time: the log is a static.)
+pub fn zst_value(seed: u64, idx: u64) -> Case {
+    let _one_at_a_time = ZST_LOCK.lock().unwrap_or_else(|e| e.into_inner());
+    let mut rng = Rng::derive(seed, 0xC145, idx);
+    let use_async_std = rng.chance(1, 3);
+    let runtime = if use_async_std { deadpool::Runtime::AsyncStd1 } else { deadpool::Runtime::Tokio1 };
+    let interactions = rng.below(3);
+    let cancel_last = rng.chance(1, 3);
+    let script = format!("zero-sized value: runtime={:?} interactions={} last_one_cancelled={}", runtime, interactions, cancel_last);
+    ZST_DROPS.lock().unwrap_or_else(|e| e.into_inner()).clear();
+    let rt = tokio::runtime::Builder::new_multi_thread().worker_threads(2).max_blocking_threads(3).enable_time().build().expect("runtime");
+    let mut viol: Vec<Violation> = Vec::new();
+    let facts = rt.block_on(async move {
+        tokio::spawn(async move {
+            let created_on = Arc::new(Mutex::new(None));
+            let c2 = created_on.clone();
+            let w = SyncWrapper::new(runtime, move || {
+                *c2.lock().unwrap() = Some((std::thread::current().id(), blocking_allowed()));
+                Ok::<_, ()>(Handle)
+            })
+            .await
+            .expect("ctor");
+            let w = Arc::new(w);
+            let mut ran_on = Vec::new();
+            for k in 0..interactions {
+                let w2 = w.clone();
+                let h = tokio::spawn(async move { w2.interact(|_| (std::thread::current().id(), blocking_allowed())).await });
+                if cancel_last && k + 1 == interactions {
+                    h.abort();
+                    let _ = h.await;
+                } else if let Ok(Ok(x)) = h.await {
+                    ran_on.push(x);
+                }
+            }
+            let me = std::thread::current().id();
+            drop(w);
+            // bounded wait for the destructor
+            for _ in 0..20_000 {
+                if !ZST_DROPS.lock().unwrap_or_else(|e| e.into_inner()).is_empty() {
+                    break;
+                }
+                tokio::time::sleep(Duration::from_micros(250)).await;
+            }
+            tokio::time::sleep(Duration::from_millis(1)).await;
+            let created = *created_on.lock().unwrap();
+            (created, ran_on, me)
+        })
+        .await
+    });
+    rt.shutdown_timeout(Duration::from_secs(5));
+    let drops = ZST_DROPS.lock().unwrap_or_else(|e| e.into_inner()).clone();
+    match facts {
+        Err(_) => viol.push(Violation { prop: "C14", oracle: "harness", msg: "the task died".into() }),
+        Ok((created, ran_on, dropper)) => {
+            if let Some((t, ok)) = created {
+                if t == dropper || !ok {
+                    viol.push(Violation { prop: "C14", oracle: "ctor_on_async_thread", msg: format!("the zero-sized value was created on {:?} (awaiting thread {:?}, blocking allowed: {})", t, dropper, ok) });
+                }
+            }
+            for (t, ok) in &ran_on {
+                if *t == dropper || !*ok {
+                    viol.push(Violation { prop: "C14", oracle: "closure_on_async_thread", msg: format!("a closure on the zero-sized value ran on {:?} (awaiting thread {:?}, blocking allowed: {})", t, dropper, ok) });
+                }
+            }
+            if drops.len() != 1 {
+                viol.push(Violation { prop: "C14", oracle: "destructor_count", msg: format!("the zero-sized value's destructor ran {} times ({})", drops.len(), script) });
+            } else if drops[0] == dropper {
+                viol.push(Violation { prop: "C14", oracle: "destructor_on_async_thread", msg: format!("the zero-sized value was destroyed on {:?}, the thread that dropped the wrapper", dropper) });
+            }
+        }
+    }
+    let mut h = Hasher::default();
+    h.str(&script);
+    Case {
+        violations: viol,
+        hash: h.0,
+        nontrivial: true,
+        events: 2 + interactions,
+        counters: BTreeMap::new(),
+        desc: Json::obj().with("engine", "c14_zst").with("seed", seed).with("index", idx).with("script", script),
+        sig_tail: String::new(),
+    }
+}
